@@ -31,7 +31,8 @@ CHECKS = {
         "a 15-symbol core one level deeper, every opcode class of pickletools in every position of length<=3 programs, and the object "
         "corpus at protocols 0-5 plus all deviation-1 variants of it: the reference VM's import, call and BUILD/__setstate__ events "
         "(callee + argument snapshot at call time) must be a sub-multiset of those of the decompiled source executed under the same stubs, "
-        "and a real call may not be rendered through __new__. The failure mode is an interaction of two "
+        "and a real call may not be rendered through __new__; the resolve-form x call-form x disposal x prefix product of C04 (memo layouts, "
+        "same-named globals) goes through the same oracle. The failure mode is an interaction of two "
         "opcodes (call-maker x disposer), i.e. exactly what exhaustive short sequences cover.",
         ref="§3/C03, §2/E1",
         note="Trusted: pure-Python unpickler as reference; stub world (NEWOBJ rendered as a call, frozenset transparent); bounded alphabet/depth.",
@@ -42,7 +43,7 @@ CHECKS = {
         text="Ground truth (what would be resolved / called) comes from executing each program on the reference VM with inert stubs and from "
         "labels fixed in vp/vocab.py, never from fickling. Explored: all programs over core+labelled-global alphabets to depth 4/5 (2-3 "
         "vocabulary groups incl. same-named benign/dangerous pairs), deviation-1 variants of natural object pickles, and the full "
-        "product vocabulary(31) x resolve form(8, incl. sparse/overwriting memo layouts) x call form(8) x disposal(11) x prefix(6).",
+        "product vocabulary(33, incl. dotted protocol-4 callees reached through a benign module) x resolve form(8, incl. sparse/overwriting memo layouts) x call form(8) x disposal(11) x prefix(6).",
         ref="§3/C04",
         note="Trusted: the label table; the floor table transcribed from the property statement; one-directional comparison.",
     ),
@@ -61,7 +62,9 @@ CHECKS = {
         technique=E2 + " (here: every sequence of the six read-only queries of length 3/4 on every E1 terminal program), plus digest tables from child processes under different PYTHONHASHSEED",
         text="For every terminal program of a 34-symbol alphabet to depth 3/4 (a narrow alphabet one deeper, and a macro alphabet that "
         "builds repeated identical calls) and a corpus subset, every history of {unparse, check_safety, trace, summaries, dumps, reparse} of "
-        "length 3/4 and every pair of 11 fine-grained queries is replayed on a fresh parse and every answer compared with a fresh object's first answer; the per-program answer digests are recomputed in 3 processes with different hash seeds.",
+        "length 3/4 and every pair of 11 fine-grained queries is replayed on a fresh parse and every answer compared with a fresh object's first answer; "
+        "the same bytes parsed as the second member of a stacked file must give the same answers; the per-program answer digests are recomputed in 3 "
+        "processes with different hash seeds, two of which meet an ordered program list in the opposite order.",
         ref="§3/C13",
         note="Trusted: finite set of hash seeds; findings compared as a set.",
     ),
@@ -70,15 +73,17 @@ CHECKS = {
         technique=E1 + "; terminal oracle: check_safety returns well-formed JSON-serialisable findings and the checked loader's error carries the same report; plus an exhaustive module x name x opcode x PROTO product",
         text="All decompilable programs over core + special-cased globals to depth 4/5, a statement-shape alphabet one deeper, the corpus and "
         "its deviation-1 variants, and the product 24 modules x 17 attribute names (every name a rule special-cases) x 2 resolving opcodes x "
-        "7 uses x 5 PROTO placements (~28k programs); the loader's error report is compared at three thresholds.",
+        "7 uses x 5 PROTO placements (~28k programs); the loader's error report is compared at three thresholds, each fed from a different kind of "
+        "stream (in memory, raw non-seekable, buffered non-seekable).",
         ref="§3/C19",
         note="Trusted: pickle.loads replaced by a recorder during fickling.load so nothing generated is really unpickled.",
     ),
     "C11": dict(
         level="model_checking",
         technique=E2 + "; model = (BASE, current additions); every history without state matching to depth 4/5, then with matching deeper",
-        text="All histories over activate(A) for 5 addition sets / deactivate / construct-unpickler(A) up to depth 4 (quick, 16k histories) or 5, "
-        "each replayed on the real process; after every step 5 probe globals are loaded through pickle.load, pickle.loads and _pickle.loads and "
+        text="All histories over activate(A) for 6 addition sets / deactivate / probe (loads of every probe global, refused ones included) / "
+        "construct-unpickler(A) up to depth 4 (quick, 41k histories) or 5, "
+        "each replayed on the real process; after every step 7 probe globals are loaded through pickle.load, pickle.loads and _pickle.loads and "
         "through a private unpickler instance, and ML_ALLOWLIST (also as seen by the MLAllowlist analysis) is deep-compared with a pristine copy.",
         ref="§3/C11, §2/E2",
         note="Trusted: the two-variable model; probe globals chosen to include a new member of an allow-listed module and new modules.",
@@ -86,21 +91,23 @@ CHECKS = {
     "C12": dict(
         level="model_checking",
         technique=E2 + "; explicit lifecycle model of the four pickle bindings and a stack of context snapshots",
-        text="All histories over {arm, activate(), activate(x), remove, construct, enter, leave, leave-by-exception, probe load, probe loads} with up "
+        text="All histories over {arm, activate(), activate(x), remove, construct, enter, leave, leave-by-exception, probe load, probe loads, probe load of a pickle the static analysis passes but the allowlist does not list} with up "
         "to 3 open contexts: unmerged to depth 4/6 and merged on (model, classified real bindings, saved bindings of context managers) to depth "
         "6/8. After every step each real binding is classified by identity/closure and compared with the model; probes must not execute a "
-        "flagged pickle while the model says the entry point is protected.",
+        "flagged pickle while the model says the entry point is protected, and the checked loader must hand the analysed bytes to whatever "
+        "pickle.loads is bound to at that moment.",
         ref="§3/C12",
         note="Trusted: the lifecycle model (DESIGN §3/C12); loads under the load-only global check carries no expectation.",
     ),
     "C14": dict(
         level="model_checking",
         technique=E2 + "; state = (opcode encodings, cached AST digest, cached properties digest); oracle = every view equals that of a fresh Pickled(list(p))",
-        text="All histories of 61 core operations (insert/delete/replace/slice-assign/append/extend/pop/reverse/+=/remove at first, last and "
-        "negative positions, the injection helpers, explicit reads of ast / properties / severity / dumps) to depth 3 (quick) / 4, and of "
-        "the full 89-operation menu (NoOp-class and constant-for-constant edits added) one level shallower, from 6/8 base pickles; after every step ast, import/call "
-        "summaries, verdict and dumps() are compared with a freshly constructed Pickled over the same opcode list, and dumps() with the "
-        "concatenation of the opcodes' encodings.",
+        text="All histories of 62 core operations (insert/delete/replace/slice-assign/append/extend/pop/reverse/+=/remove at first, last and "
+        "negative positions, the injection helpers, explicit reads of ast / properties / severity / dumps and a caller's own Interpreter run) to depth 3 (quick) / 4, and of "
+        "the full 90-operation menu (NoOp-class and constant-for-constant edits added) one level shallower, from 7/9 base pickles (one with a "
+        "70000-byte opcode); every sequence operation is also applied to a plain list of the same opcode objects (reference model); after every step ast, import/call "
+        "summaries, verdict and dumps() are compared with a freshly constructed Pickled over the same opcode list, dumps() with the "
+        "concatenation of the opcodes' encodings and dump(file) with dumps().",
         ref="§3/C14",
         note="Trusted: a Pickled's state is (_opcodes, _ast, _properties); exceptions compared by type.",
     ),
@@ -140,7 +147,8 @@ CHECKS = {
         level="model_checking",
         technique=E3 + ": all stacks of 1..3/4 pickles over 6 severity shapes x every face of the verdict; all 36 severity pairs x 6 operators",
         text="1024 / 2700 files (stacks of 1..4/5 over 7 severity shapes) x {per-pickle library verdict, to_dict, is_likely_safe, checked loader at 6 thresholds, CLI --check-safety under "
-        "4 option sets (exit status and decoded JSON report)} compared through an independent rank table; the same path rewritten and asked again; "
+        "4 option sets from a path and 2 from a non-seekable stdin (exit status and decoded JSON report)} compared through an independent rank table; "
+        "the same path rewritten and asked again, also with equal size and modification time; "
         "Severity comparison operators checked on all ordered pairs.",
         ref="§3/C10",
         note="Trusted: rank table in vp/vocab.py; POSSIBLY_UNSAFE is not produced by any analysis.",
@@ -170,9 +178,10 @@ CHECKS = {
         text="Every terminal program over core opcodes x {canary module, canary sub-package, os.system, builtins.eval/exec, sink} resolved through "
         "GLOBAL / STACK_GLOBAL / INST to depth 4/5, natural __reduce__ payloads (os.system, eval, exec, Popen, socket, nested pickle.loads) at "
         "protocols 0-5, calls a 'helpful' analysis might evaluate (codec lookup by an input-chosen name, marshal.loads of input bytes, attribute "
-        "lookup on an already loaded module), and every proper prefix and per-offset byte replacement of those, are passed to 12 entry points (parse, stacked parse, "
+        "lookup on an already loaded module, allow-listed globals of packages that are not installed, URL-fetching callees), 4-5 MiB inputs "
+        "through non-seekable streams and CLI stdin, and every proper prefix and per-offset byte replacement of those, are passed to 12 entry points (parse, stacked parse, "
         "ast, unparse, trace, check_safety, summaries, is_likely_safe, CLI decompile/trace/check-safety). A CPython audit hook in the worker "
-        "records imports of named modules, exec/compile of non-library code, opens for writing, process/socket/ctypes events, find_class; "
+        "records imports of canary modules and of any module named in the input, exec/compile of non-library code, opens for writing, process/socket/ctypes events, find_class; "
         "sys.modules, the scratch directory and canary marker files are diffed.",
         ref="§3/C01, §2/E4",
         note="Trusted: CPython audit events as the effect monitor (after a warm-up pass); bounded alphabet/depth and corruption alphabet.",
@@ -180,10 +189,11 @@ CHECKS = {
     "C07": dict(
         level="model_checking",
         technique=E3 + ": payload trees (loader x container per level) x leaf global x entry point x additions; ground truth from an unprotected reference load",
-        text="All payload trees of depth 0..2 (quick, 91 trees) / 0..3 (thorough, 820) with levels (torch.storage._load_from_bytes | pickle.loads | "
-        "_pickle.loads) x (bare pickle | legacy torch container | zip torch container), 6 leaf globals (incl. INST-only, dotted protocol-4 "
-        "names, unlisted member of a listed module), through the 4 hooked entry points under 4 addition sets, also after a re-activation "
-        "without removal. Every pickle.find_class audit event during the protected load must be allowed; if the reference load reaches "
+        text="All payload trees of depth 0..2 (quick) / 0..3 (thorough) with levels (torch.storage._load_from_bytes | pickle.loads | "
+        "_pickle.loads | pickle.loads on a BYTEARRAY8 payload) x (bare pickle | legacy torch container | zip torch container), 7 leaf globals (incl. INST-only, dotted protocol-4 "
+        "names, unlisted member of a listed module, an import-only stdlib name the static analysis passes), through the 4 hooked entry points, "
+        "bytearray / memoryview arguments, and pickle.load with fickling's static hook (global or context manager) layered on top, under 4 addition sets, "
+        "also after a re-activation (the earlier activation used once) without removal. Every pickle.find_class audit event during the protected load must be allowed; if the reference load reaches "
         "a global outside the allowed set the protected load must raise UnsafeFileError and the sink must stay empty.",
         ref="§3/C07",
         note="Trusted: find_class audit events see every unpickler instance; payloads harmless and really loaded; torch 2.14 of this image.",
